@@ -78,6 +78,11 @@ func main() {
 		os.Exit(mon.ShardMain(p, os.Args[3], seed, i, os.Args[6]))
 	case "racecanary":
 		os.Exit(props.C16Canary())
+	case "randstorm":
+		// randstorm <goroutines> <calls> <out>
+		g, _ := strconv.Atoi(os.Args[2])
+		n, _ := strconv.Atoi(os.Args[3])
+		os.Exit(props.C16RandStorm(g, n, os.Args[4]))
 	case "raceload":
 		// raceload <seed> <goroutines> <iters> <out>
 		seed, _ := strconv.ParseUint(os.Args[2], 10, 64)
